@@ -119,7 +119,11 @@ def run(job, seed):
         N2 = MENU[tier][(job['n'] + 1) % len(MENU[tier])]
         old_choices = [None]
         if renamed:
-            old_choices += ovr + ['rule:%s' % new1, O]
+            # ... including an override that is, as text, exactly the old or
+            # exactly the NEW default
+            for c in ovr + ['rule:%s' % new1, O, N]:
+                if c not in old_choices:
+                    old_choices.append(c)
         for end, new_ovr, old_ovr, loc, noise in itertools.product(
                 (False, True), [None] + ovr, old_choices,
                 ('main', 'dir', 'split'), (False, True)):
